@@ -639,7 +639,24 @@ func isEmptyJSON(v value) bool {
 func (e *jsonEnc) encode(t types.Type, v value) {
 	fr := e.fr
 	i := fr.i
-	if containsSym(v) {
+	if sv, ok := v.(*SymVal); ok && sv.t.w < 0 {
+		// a symbolic float: encoding/json fails on non-finite values and otherwise writes the
+		// shortest text that parses back to the value (float token contract, intrinsics_float.go)
+		x64 := fr.f64(sv)
+		nonFinite := mkSym(types.Bool, app(0, "or", app(0, "fp.isInfinite", x64.t), app(0, "fp.isNaN", x64.t)))
+		if fr.truth(nonFinite) {
+			e.fail("json: unsupported value: <non-finite float>")
+			return
+		}
+		bits := 64
+		if sv.t.w == -32 {
+			bits = 32
+		}
+		e.buf.WriteString(fr.newFloatTok(sv, 'g', -1, bits))
+		return
+	}
+	switch v.(type) {
+	case *SymVal, *symStr:
 		panic(unsupported("json.Marshal of a symbolic value"))
 	}
 	if isNamed(t, "encoding/json", "RawMessage") {
